@@ -22,16 +22,36 @@ package allocator
 //@   inv cnt: bigval(self.allocatedCount) == card(self.allocated) && card(self.allocated) == card(self.indexToSubscriber)
 
 //@ func NewIPAllocator
+//@   modifies nothing
+//@   ensures err == nil ==> result.prefixLen == prefixLength
 //@   ensures err == nil ==> result != nil && fresh(result) && result.nonnil && result.distinct
 //@   ensures err == nil ==> result.fwd && result.rev && result.bits && result.cnt
 //@   ensures err == nil ==> result.total
 //@   ensures err == nil ==> card(result.allocated) == 0 && forall i mathint :: !bit(result.bitmap, i)
 
+// ---- persistence (C12) ----
+// doc(b) is the JSON document held by b; json_str/json_int/json_strmap_* are its
+// members (assumed encoding/json model); big_text16/big_parse16 model
+// (*big.Int).Text(16)/SetString(.,16) on the bit view.
+
+//@ func (a *IPAllocator) MarshalJSON
+//@   ensures err == nil ==> json_str(doc(result), "bitmap") == big_text16(locked(bits(a.bitmap)))
+//@   ensures err == nil ==> !json_map_nil(doc(result), "allocated") && json_strmap_dom(doc(result), "allocated") == locked(dom(a.allocated)) && json_strmap_val(doc(result), "allocated") == locked(vals(a.allocated))
+//@   ensures err == nil ==> json_map_len(doc(result), "allocated") == locked(card(a.allocated)) && json_int(doc(result), "prefix_length") == a.prefixLen
+
+// What UnmarshalJSON establishes WITHOUT trusting the document: the allocator
+// invariant (the bitmap, reverse map and count are rebuilt from the allocation map) ...
 //@ func (a *IPAllocator) UnmarshalJSON
 //@   ensures err == nil ==> a.nonnil && a.distinct
-//@   ensures err == nil ==> a.fwd && a.rev && a.bits
+//@   ensures err == nil ==> a.fwd
+//@   ensures err == nil ==> a.rev
+//@   ensures err == nil ==> a.bits
 //@   ensures err == nil ==> a.cnt
 //@   ensures err == nil ==> a.total
+// ... and what it establishes relative to the document (round trip with MarshalJSON)
+//@   ensures err == nil && !json_map_nil(doc(data), "allocated") ==> a.allocated != nil && dom(a.allocated) == json_strmap_dom(doc(data), "allocated") && vals(a.allocated) == json_strmap_val(doc(data), "allocated")
+//@   ensures err == nil && !json_map_nil(doc(data), "allocated") ==> card(a.allocated) == json_map_len(doc(data), "allocated") && bigval(a.allocatedCount) == card(a.allocated)
+//@   ensures err == nil ==> a.prefixLen == json_int(doc(data), "prefix_length")
 
 //@ loop IPAllocator.UnmarshalJSON#1
 //@   invariant alloc != nil && alloc != a && alloc.nonnil && alloc.distinct && alloc.total
@@ -71,6 +91,9 @@ package allocator
 //@   ensures err == nil ==> 0 <= result && result < bigval(a.totalPrefixes)
 
 //@ func (a *IPAllocator) Allocate
+//@   modifies a.bitmap, a.allocatedCount, a.nextFree, a.allocated, a.indexToSubscriber
+//@   ensures a.bitmap == locked(a.bitmap) && a.allocatedCount == locked(a.allocatedCount) && a.nextFree == locked(a.nextFree) && a.allocated == locked(a.allocated) && a.indexToSubscriber == locked(a.indexToSubscriber)
+//@   ensures a.nonnil && a.distinct && a.total && a.fwd && a.rev && a.bits && a.cnt
 //@   ensures locked(subscriberID in a.allocated) ==> err == nil && result != nil
 //@   ensures locked(subscriberID in a.allocated) ==> dom(a.allocated) == locked(dom(a.allocated)) && vals(a.allocated) == locked(vals(a.allocated)) && dom(a.indexToSubscriber) == locked(dom(a.indexToSubscriber)) && vals(a.indexToSubscriber) == locked(vals(a.indexToSubscriber)) && bits(a.bitmap) == locked(bits(a.bitmap)) && bigval(a.allocatedCount) == locked(bigval(a.allocatedCount))
 //@   ensures !locked(subscriberID in a.allocated) && err == nil ==> result != nil && !locked(bits(a.bitmap))[a.allocated[subscriberID]] && !(a.allocated[subscriberID] in locked(dom(a.indexToSubscriber)))
@@ -81,8 +104,12 @@ package allocator
 //@   ensures err != nil ==> dom(a.allocated) == locked(dom(a.allocated)) && vals(a.allocated) == locked(vals(a.allocated)) && dom(a.indexToSubscriber) == locked(dom(a.indexToSubscriber)) && bits(a.bitmap) == locked(bits(a.bitmap)) && bigval(a.allocatedCount) == locked(bigval(a.allocatedCount))
 
 //@ func (a *IPAllocator) Release
+//@   modifies a.bitmap, a.allocatedCount, a.nextFree, a.allocated, a.indexToSubscriber
+//@   ensures a.bitmap == locked(a.bitmap) && a.allocatedCount == locked(a.allocatedCount) && a.nextFree == locked(a.nextFree) && a.allocated == locked(a.allocated) && a.indexToSubscriber == locked(a.indexToSubscriber)
+//@   ensures a.nonnil && a.distinct && a.total && a.fwd && a.rev && a.bits && a.cnt
 //@   ensures locked(subscriberID in a.allocated) ==> err == nil && dom(a.allocated) == locked(dom(a.allocated))[subscriberID := false] && dom(a.indexToSubscriber) == locked(dom(a.indexToSubscriber))[locked(a.allocated[subscriberID]) := false]
 //@   ensures locked(subscriberID in a.allocated) ==> bits(a.bitmap) == locked(bits(a.bitmap))[locked(a.allocated[subscriberID]) := false] && bigval(a.allocatedCount) == locked(bigval(a.allocatedCount)) - 1
+//@   ensures forall s string :: s != subscriberID ==> a.allocated[s] == locked(a.allocated[s])
 //@   ensures !locked(subscriberID in a.allocated) ==> isErr(err, ErrNotAllocated) && dom(a.allocated) == locked(dom(a.allocated)) && dom(a.indexToSubscriber) == locked(dom(a.indexToSubscriber)) && bits(a.bitmap) == locked(bits(a.bitmap)) && bigval(a.allocatedCount) == locked(bigval(a.allocatedCount))
 
 //@ func (a *IPAllocator) AllocateSpecific
@@ -93,8 +120,26 @@ package allocator
 //@ func (a *IPAllocator) ReleasePrefix
 //@   requires prefix != nil
 
+// SetAllocation (replay from the store): on success the subscriber maps to the
+// index of the given prefix, a previous different index of the same subscriber
+// is freed, every other subscriber is untouched; on failure nothing changes.
 //@ func (a *IPAllocator) SetAllocation
 //@   requires prefix != nil
+//@   modifies a.bitmap, a.allocatedCount, a.nextFree, a.allocated, a.indexToSubscriber
+//@   ensures a.bitmap == locked(a.bitmap) && a.allocatedCount == locked(a.allocatedCount) && a.nextFree == locked(a.nextFree) && a.allocated == locked(a.allocated) && a.indexToSubscriber == locked(a.indexToSubscriber)
+//@   ensures a.nonnil && a.distinct && a.total && a.fwd && a.rev && a.bits
+// (a.cnt is what lockinv[IPAllocator.cnt@unlock] checks; it FAILS there - see report - and is listed here so that callers are verified against the intended contract)
+//@   ensures a.cnt
+//@   ensures err == nil ==> subscriberID in a.allocated && 0 <= a.allocated[subscriberID] && a.allocated[subscriberID] < bigval(a.totalPrefixes)
+//@   ensures err == nil ==> dom(a.allocated) == locked(dom(a.allocated))[subscriberID := true] && vals(a.allocated) == locked(vals(a.allocated))[subscriberID := a.allocated[subscriberID]]
+//@   ensures err == nil ==> !(a.allocated[subscriberID] in locked(dom(a.indexToSubscriber))) || locked(a.indexToSubscriber[a.allocated[subscriberID]]) == subscriberID
+//@   ensures err == nil && !locked(subscriberID in a.allocated) ==> dom(a.indexToSubscriber) == locked(dom(a.indexToSubscriber))[a.allocated[subscriberID] := true] && vals(a.indexToSubscriber) == locked(vals(a.indexToSubscriber))[a.allocated[subscriberID] := subscriberID]
+//@   ensures err == nil && !locked(subscriberID in a.allocated) ==> bits(a.bitmap) == locked(bits(a.bitmap))[a.allocated[subscriberID] := true]
+//@   ensures err == nil && locked(subscriberID in a.allocated) ==> dom(a.indexToSubscriber) == locked(dom(a.indexToSubscriber))[locked(a.allocated[subscriberID]) := false][a.allocated[subscriberID] := true]
+//@   ensures err == nil && locked(subscriberID in a.allocated) ==> bits(a.bitmap) == locked(bits(a.bitmap))[locked(a.allocated[subscriberID]) := false][a.allocated[subscriberID] := true]
+//@   ensures err == nil ==> a.indexToSubscriber[a.allocated[subscriberID]] == subscriberID
+//@   ensures err == nil ==> bigval(a.allocatedCount) == card(a.allocated)
+//@   ensures err != nil ==> dom(a.allocated) == locked(dom(a.allocated)) && vals(a.allocated) == locked(vals(a.allocated)) && dom(a.indexToSubscriber) == locked(dom(a.indexToSubscriber)) && vals(a.indexToSubscriber) == locked(vals(a.indexToSubscriber)) && bits(a.bitmap) == locked(bits(a.bitmap)) && bigval(a.allocatedCount) == locked(bigval(a.allocatedCount))
 
 //@ func (a *IPAllocator) LookupByPrefix
 //@   requires prefix != nil
@@ -103,7 +148,123 @@ package allocator
 //@   requires prefix != nil
 
 //@ func (a *IPAllocator) Lookup
+//@   modifies a.bitmap, a.allocatedCount, a.nextFree, a.allocated, a.indexToSubscriber
+//@   ensures a.bitmap == locked(a.bitmap) && a.allocatedCount == locked(a.allocatedCount) && a.nextFree == locked(a.nextFree) && a.allocated == locked(a.allocated) && a.indexToSubscriber == locked(a.indexToSubscriber)
+//@   ensures a.nonnil && a.distinct && a.total && a.fwd && a.rev && a.bits && a.cnt
 //@   ensures (result != nil) == locked(subscriberID in a.allocated)
 
 //@ func (a *IPAllocator) Stats
 //@   ensures allocated == locked(card(a.allocated)) % 18446744073709551616 && total == locked(bigval(a.totalPrefixes))
+
+// ---- distributed.go: agreement between the local allocator and the store (C12) ----
+// The store is an interface; its methods fail nondeterministically. Ghost
+// counters record the effects that reached the store: storePuts / storeDeletes
+// count successful writes, lastPutDoc is the JSON document of the last
+// successful Put. (Assumed: a Put/Delete that returns an error had no effect.)
+
+//@ ghostvar storePuts, storeDeletes, lastPutDoc
+
+//@ iface Store.Put(ctx, key, value)
+//@   modifies storePuts, lastPutDoc
+//@   ensures err == nil ==> storePuts == old(storePuts) + 1 && lastPutDoc == doc(value)
+//@   ensures err != nil ==> storePuts == old(storePuts) && lastPutDoc == old(lastPutDoc)
+
+//@ iface Store.Delete(ctx, key)
+//@   modifies storeDeletes
+//@   ensures err == nil ==> storeDeletes == old(storeDeletes) + 1
+//@   ensures err != nil ==> storeDeletes == old(storeDeletes)
+
+//@ iface Store.Get(ctx, key)
+//@   modifies nothing
+
+//@ iface Store.Query(ctx, prefix)
+//@   modifies nothing
+
+//@ type DistributedAllocator
+//@   owns mu:
+
+//@ func (da *DistributedAllocator) allocationKey
+//@   modifies nothing
+
+//@ func (da *DistributedAllocator) keyPrefix
+//@   modifies nothing
+
+//@ func (da *DistributedAllocator) saveAllocation
+//@   requires alloc != nil && da.store != nil
+//@   modifies storePuts, lastPutDoc
+//@   ensures err == nil ==> storePuts == old(storePuts) + 1 && json_str(lastPutDoc, "subscriber_id") == alloc.SubscriberID && json_str(lastPutDoc, "prefix") == alloc.Prefix
+//@   ensures err == nil ==> json_str(lastPutDoc, "pool_id") == alloc.PoolID && json_int(lastPutDoc, "epoch") == alloc.Epoch
+//@   ensures err != nil ==> storePuts == old(storePuts) && lastPutDoc == old(lastPutDoc)
+
+//@ func (da *DistributedAllocator) deleteAllocation
+//@   requires da.store != nil
+//@   modifies storeDeletes
+//@   ensures err == nil ==> storeDeletes == old(storeDeletes) + 1
+//@   ensures err != nil ==> storeDeletes == old(storeDeletes)
+
+// session mode (IPAllocator behind the DistributedAllocator's mutex)
+//@ pure func sessionMode(da *DistributedAllocator) bool =
+//@     da.mode != PoolModeLease && da.allocator != nil && da.store != nil && da.allocator.nonnil && da.allocator.distinct && da.allocator.total && da.allocator.fwd && da.allocator.rev && da.allocator.bits && da.allocator.cnt
+
+// Allocate: on success the subscriber holds the returned prefix locally and the
+// store received a record naming exactly that subscriber and prefix; on failure
+// neither the local allocator nor the store changed (so they still agree).
+//@ func (da *DistributedAllocator) Allocate
+//@   mode seq
+//@   requires sessionMode(da)
+//@   modifies da.allocator.bitmap, da.allocator.allocatedCount, da.allocator.nextFree, da.allocator.allocated, da.allocator.indexToSubscriber, storePuts, lastPutDoc
+//@   ensures err == nil ==> result != nil && subscriberID in da.allocator.allocated && storePuts == old(storePuts) + 1
+//@   ensures err == nil ==> json_str(lastPutDoc, "subscriber_id") == subscriberID && json_str(lastPutDoc, "prefix") == ipnet_str(result)
+//@   ensures err == nil && old(subscriberID in da.allocator.allocated) ==> dom(da.allocator.allocated) == old(dom(da.allocator.allocated)) && vals(da.allocator.allocated) == old(vals(da.allocator.allocated))
+//@   ensures err != nil ==> storePuts == old(storePuts) && lastPutDoc == old(lastPutDoc)
+//@   ensures err != nil && !old(subscriberID in da.allocator.allocated) ==> dom(da.allocator.allocated) == old(dom(da.allocator.allocated)) && bits(da.allocator.bitmap) == old(bits(da.allocator.bitmap))
+//@   ensures err != nil && !old(subscriberID in da.allocator.allocated) ==> forall s string :: s in da.allocator.allocated ==> da.allocator.allocated[s] == old(da.allocator.allocated[s])
+//@   ensures old(subscriberID in da.allocator.allocated) && err != nil ==> dom(da.allocator.allocated) == old(dom(da.allocator.allocated)) && bits(da.allocator.bitmap) == old(bits(da.allocator.bitmap))
+
+// Release: on success the subscriber is gone locally and the store record was
+// deleted; on failure both are unchanged.
+//@ func (da *DistributedAllocator) Release
+//@   mode seq
+//@   requires sessionMode(da)
+//@   modifies da.allocator.bitmap, da.allocator.allocatedCount, da.allocator.nextFree, da.allocator.allocated, da.allocator.indexToSubscriber, storeDeletes
+//@   ensures err == nil ==> !(subscriberID in da.allocator.allocated) && storeDeletes == old(storeDeletes) + 1
+//@   ensures err != nil ==> storeDeletes == old(storeDeletes)
+//@   ensures err != nil ==> dom(da.allocator.allocated) == old(dom(da.allocator.allocated)) && bits(da.allocator.bitmap) == old(bits(da.allocator.bitmap))
+
+// Remote announcements and reload (session mode): what the contracts decide is
+// that the allocator invariant survives (via SetAllocation / Release contracts);
+// that the address installed is the announced / stored one is decided for
+// SetAllocation's index only up to getIndexByPrefix (see report).
+//@ func (da *DistributedAllocator) handleRemoteChange
+//@   mode seq
+//@   requires sessionMode(da)
+//@   modifies da.allocator.bitmap, da.allocator.allocatedCount, da.allocator.nextFree, da.allocator.allocated, da.allocator.indexToSubscriber
+//@   ensures da.allocator.nonnil && da.allocator.distinct && da.allocator.total && da.allocator.fwd && da.allocator.rev && da.allocator.bits
+//@   ensures da.allocator.cnt
+
+//@ func (da *DistributedAllocator) loadAllocations
+//@   mode seq
+//@   requires sessionMode(da)
+//@   modifies *
+//@   ensures da.allocator.nonnil && da.allocator.distinct && da.allocator.total && da.allocator.fwd && da.allocator.rev && da.allocator.bits
+//@   ensures da.allocator.cnt
+
+//@ loop DistributedAllocator.loadAllocations#1
+//@   invariant da.allocator.nonnil && da.allocator.distinct && da.allocator.total && da.allocator.fwd && da.allocator.rev && da.allocator.bits && da.allocator.cnt
+
+// Lease mode is outside these contracts (requires sessionMode), but the
+// DistributedAllocator methods contain the lease branch; thin TRUSTED frames
+// keep that dead branch from forgetting the heap. To be replaced by verified
+// EpochBitmapAllocator contracts (C01/C05).
+//@ func (a *EpochBitmapAllocator) Allocate
+//@   trusted frame only: touches the epoch allocator's own state
+//@   modifies a.generations, a.subscribers, a.ipToSubscriber, a.currentEpoch, a.nextFreeHint
+//@ func (a *EpochBitmapAllocator) Release
+//@   trusted frame only: touches the epoch allocator's own state
+//@   modifies a.generations, a.subscribers, a.ipToSubscriber, a.currentEpoch, a.nextFreeHint
+//@ func (a *EpochBitmapAllocator) Lookup
+//@   trusted frame only: touches the epoch allocator's own state
+//@   modifies a.generations, a.subscribers, a.ipToSubscriber, a.currentEpoch, a.nextFreeHint
+//@ func (a *EpochBitmapAllocator) GetCurrentEpoch
+//@   trusted frame only: reads the epoch counter
+//@   modifies nothing
